@@ -5,6 +5,7 @@ package memberlist
 import (
 	"bytes"
 	"fmt"
+	"net"
 	"sort"
 	"strings"
 	"time"
@@ -51,6 +52,7 @@ func genC12(c *Ctx) *Plan {
 	}
 	p.Cfg.PushPullMs = 1000
 	p.P["multikey"] = int64(r.intn(2))
+	p.P["v6"] = int64(r.pick(0, 0, 1))
 	n := p.N
 	for i := 0; i < n; i++ {
 		nl := r.pick(1, 2, 10, 64, 255)
@@ -110,6 +112,12 @@ func genC12(c *Ctx) *Plan {
 func execC12(c *Ctx) {
 	p := c.Plan
 	cx := startClusterRun(c, newEventMon(), &healthMon{}, &c04mon{})
+	if p.param("v6", 0) == 1 {
+		for _, n := range cx.cl.nodes {
+			n.ip = net.ParseIP(fmt.Sprintf("fd00::%x", 0x10+n.idx))
+		}
+		c.Reach("ipv6_addresses")
+	}
 	k2 := simKey(16, 0x66)
 	multikey := p.param("multikey", 0) == 1 && p.Cfg.Encrypt > 0
 	cx.customOp = func(rec *opRec) bool {
